@@ -23,6 +23,7 @@ namespace vf {
         S_BARRIER_ARRIVE = 51,     // barrier arrive between ticket CASes
         S_THREAD_JOIN = 60,        // thread::join between callback registration and suspend
         S_EXIT_CALLBACKS = 61,     // thread_data::run_thread_exit_callbacks entry
+        S_EXIT_CALLBACK_CALL = 62, // run_thread_exit_callbacks: lock released, before invoking one callback
         S_STOP_BEFORE_EXEC = 70,   // stop_state::request_stop between dequeue and execute
         S_STOP_AFTER_EXEC = 71,    // ... after execute
         S_STOP_REMOVE = 72,        // remove_callback after the unlink attempt
